@@ -827,7 +827,25 @@ class PCE500Memory:
             if needs_python:
                 fallback.append((start, end))
 
+        # The memory card is backed by handlers, not by overlay data: without this its
+        # contents would be missing from snapshots.
+        if self._card_present:
+            card_len = min(self._card_len, max(0, blob_len - MEMORY_CARD_SLOT_START))
+            blob[MEMORY_CARD_SLOT_START : MEMORY_CARD_SLOT_START + card_len] = (
+                self._card_data[:card_len]
+            )
+
         return bytes(blob), tuple(fallback), tuple(readonly)
+
+    def import_memory_card_from_flat(self, blob: bytes) -> None:
+        """Restore memory-card contents from a flattened image (see export_flat_memory)."""
+
+        if not self._card_present:
+            return
+        card_len = min(self._card_len, max(0, len(blob) - MEMORY_CARD_SLOT_START))
+        self._card_data[:card_len] = blob[
+            MEMORY_CARD_SLOT_START : MEMORY_CARD_SLOT_START + card_len
+        ]
 
     def apply_external_writes(self, writes: Iterable[Tuple[int, int]]) -> None:
         """Apply external-memory writes that originated from the LLAMA backend."""
